@@ -33,8 +33,8 @@ CHECKS = {
     "C14": dict(
         engine="poolsim",
         technique=TECH + "whole active-learning histories (initial labelling x batch size x scheduled oracle answers) on one long-lived strategy object, invariant monitor per cycle, line-count fuel for termination",
-        text="Every exported single-annotator pool strategy (and documented variant, with default and alternative models) is driven through the complete standard loop on small pools with ties, duplicates, constant and collinear features, from zero labels to a single unlabeled sample, with oracles that answer truthfully, constantly, with one class for a long prefix, or randomly. After every query: returned within a deterministic step budget, no exception, only unlabeled samples, pairwise distinct, exactly min(batch_size, remaining) many; pool exhausted after ceil(u/batch_size) queries. No infrastructure fault exists in a synchronous loop; the searched space is histories.",
-        note="Trusted: the oracle/driver, numpy, scikit-learn estimators used as models. The two pool wrappers take part with batch_size=1 (the only size both document). A raising query is only reported when the caller's scikit-learn based model, fitted on its own on the same labels, predicts valid probabilities. Genuine defects found here were repaired (see known_findings.json); the capacity-blind leaf allocation of RegressionTreeBasedAL is recorded as a known finding.",
+        text="Every exported single-annotator pool strategy (and documented variant, with default and alternative models) is driven through the complete standard loop on small pools with ties, duplicates, constant and collinear features, from zero labels to a single unlabeled sample, with numeric or string class names (missing label None), with oracles that answer truthfully, constantly, with one class for a long prefix, or randomly. After every query: returned within a deterministic step budget, no exception, only unlabeled samples, pairwise distinct, exactly min(batch_size, remaining) many; pool exhausted after ceil(u/batch_size) queries. No infrastructure fault exists in a synchronous loop; the searched space is histories.",
+        note="Trusted: the oracle/driver, numpy, scikit-learn estimators used as models. The two pool wrappers take part with batch_size=1 (the only size both document). A raising query is only reported when the caller's scikit-learn based model, fitted on its own on the same labels, predicts valid probabilities. Genuine defects found here were repaired (see known_findings.json); known findings: the capacity-blind leaf allocation of RegressionTreeBasedAL, and four strategies that cannot be driven with class names other than 0..K-1 (QueryByCommittee, BatchBALD, GreedyBALD, EpistemicUncertaintySampling with logistic regression).",
         design="4/C14",
     ),
     "C05": dict(
